@@ -202,8 +202,8 @@ def run_impl_cases(cases, chunk=80):
 
 
 def has_certain_dangling(spec):
-    """a dangling ('#nosuch...') reference that is certainly evaluated: the url of an instance, a
-    material's effect, the default scene, an instance_node"""
+    """a dangling ('#nosuch...') reference that is certainly evaluated: the url of an instance in a
+    library or scene node, a material's effect, the default scene, an instance_node"""
     for t in spec['top']:
         if t['kind'] == 'default':
             if t['url'].startswith('#nosuch'):
@@ -211,10 +211,13 @@ def has_certain_dangling(spec):
         elif t['kind'] == 'materials':
             if any(x['effect'].startswith('#nosuch') for x in t['items']):
                 return True
-        elif t['kind'] == 'nodes':
-            for x in t['items']:
+        elif t['kind'] in ('nodes', 'scenes'):
+            tops = t['items'] if t['kind'] == 'nodes' else [n for s in t['items'] for n in s['nodes']]
+            for x in tops:
                 for c in R.flat_children(x['children']):
-                    if c['t'] == 'inode' and c['url'].startswith('#nosuch'):
+                    # (children behind an unresolvable instance_node are never reached, but then the
+                    # node itself is reported as a broken reference)
+                    if c['url'].startswith('#nosuch'):
                         return True
     return False
 
